@@ -443,8 +443,44 @@ func RestoreImage(img, dir string) error {
 	return os.Rename(img, dir)
 }
 
-// CopyTree copies a directory tree (crash image). Files being appended are copied as they are.
+// CopyTree copies a directory tree (crash image). The series index (lifted VictoriaMetrics
+// mergeset) performs part of its file operations outside lib/fileops, so the recorder cannot hold
+// it still while an image is taken; to obtain a state that a real crash could leave, the copy is
+// repeated until the source listing (names, sizes, mtimes) is identical before and after the copy.
 func CopyTree(src, dst string) error {
+	var err error
+	for try := 0; try < 200; try++ {
+		l1 := listTree(src)
+		_ = os.RemoveAll(dst)
+		err = copyTreeOnce(src, dst)
+		if err == nil && l1 == listTree(src) {
+			return nil
+		}
+		time.Sleep(2 * time.Millisecond)
+	}
+	if err == nil {
+		err = fmt.Errorf("CopyTree: %s did not become quiescent", src)
+	}
+	return err
+}
+
+func listTree(root string) string {
+	var sb []byte
+	_ = filepath.Walk(root, func(p string, fi os.FileInfo, err error) error {
+		if err != nil {
+			sb = append(sb, "!"+p+"\n"...)
+			return nil
+		}
+		if fi.IsDir() && fi.Name() == "logs" {
+			return filepath.SkipDir
+		}
+		sb = append(sb, fmt.Sprintf("%s %d %d %v\n", p, fi.Size(), fi.ModTime().UnixNano(), fi.IsDir())...)
+		return nil
+	})
+	return string(sb)
+}
+
+func copyTreeOnce(src, dst string) error {
 	return filepath.Walk(src, func(p string, fi os.FileInfo, err error) error {
 		if err != nil {
 			if os.IsNotExist(err) {
